@@ -23,6 +23,9 @@ Sub-checks / keys (m = model, s = supply mode):
   C05:anchor_above_zmax        z_apparent_m_anchor above every source redshift: interpolated modes still deliver the modulus
   C05:tabulated_flat_without_K user-tabulated distances for a flat model without the optional 'K' key
 """
+import os
+for _v in ("OMP_NUM_THREADS", "OPENBLAS_NUM_THREADS", "MKL_NUM_THREADS"):
+    os.environ.setdefault(_v, "1")   # tiny matrices: threaded BLAS only adds latency (4x slower here) and nondeterminism
 import sys, os, json, time, traceback
 sys.path.insert(0, os.path.dirname(os.path.abspath(__file__)))
 from common import Recorder, parse_args, rng_of, jsonable, unjson, fscalar, pd
